@@ -190,7 +190,25 @@ def path_condition(f: Func, target: ast.AST) -> list[Cond]:
             for level2 in range(lv + 1, len(chain)):
                 _, _, block2, idx2 = chain[level2]
                 c.between += list(block2[:idx2])
+    for c in conds:
+        c.between = _prune_leaving(c.between)
     return conds
+
+
+def _prune_leaving(stmts: list[ast.stmt]) -> list[ast.stmt]:
+    """Statements of a prefix that can have executed when control continues after it:
+    branches of an `if` that always leave (return/raise/continue/break) are dropped."""
+    out: list[ast.stmt] = []
+    for st in stmts:
+        if isinstance(st, ast.If):
+            body = [] if leaves(st.body) else _prune_leaving(st.body)
+            orelse = [] if (st.orelse and leaves(st.orelse)) else _prune_leaving(st.orelse)
+            keep = ast.If(test=st.test, body=body or [ast.Pass()], orelse=orelse)
+            ast.copy_location(keep, st)
+            out.append(keep)
+        else:
+            out.append(st)
+    return out
 
 
 def free_names(e: ast.AST) -> set[str]:
